@@ -3,6 +3,7 @@ package props
 import (
 	"bytes"
 	"fmt"
+	"strings"
 	"time"
 
 	"cosmossdk.io/math"
@@ -94,6 +95,9 @@ func singlePerturbations(m *ophosttypes.MsgFinalizeTokenWithdrawal, cx c03Ctx) [
 		perturbation{"from<->to", func(m *ophosttypes.MsgFinalizeTokenWithdrawal) { m.From, m.To = m.To, m.From }},
 		perturbation{"from.changed", func(m *ophosttypes.MsgFinalizeTokenWithdrawal) { m.From += "x" }},
 		perturbation{"to.changed", func(m *ophosttypes.MsgFinalizeTokenWithdrawal) { m.To = cx.otherAddr }},
+		perturbation{"to.uppercase_spelling", func(m *ophosttypes.MsgFinalizeTokenWithdrawal) { m.To = strings.ToUpper(m.To) }},
+		perturbation{"from.uppercase_spelling", func(m *ophosttypes.MsgFinalizeTokenWithdrawal) { m.From = strings.ToUpper(m.From) }},
+		perturbation{"denom.uppercase", func(m *ophosttypes.MsgFinalizeTokenWithdrawal) { m.Amount.Denom = "UINIT" }},
 		perturbation{"from=to.concat", func(m *ophosttypes.MsgFinalizeTokenWithdrawal) { m.From = m.From + m.To }},
 		perturbation{"denom.changed", func(m *ophosttypes.MsgFinalizeTokenWithdrawal) { m.Amount.Denom = "uusdc" }},
 		perturbation{"proof.empty", func(m *ophosttypes.MsgFinalizeTokenWithdrawal) { m.WithdrawalProofs = nil }},
@@ -303,6 +307,55 @@ func checkC03(run *mon.Run, rng *mon.Rand, thorough bool) {
 			run.Evaluations++
 			run.Check("C03.stored_root_must_match_entirely", res.Class != sim.OK, "c03.partial_root_comparison", []string{fmt.Sprintf("output %d stores the commitment with byte %d flipped", o.Index, pos)}, "claim accepted although the stored output root differs from the commitment in byte %d", pos)
 			run.Distinct(fmt.Sprintf("C03/storedroot/%d", pos))
+		}
+	}
+	// ---- deep paths: a commitment whose path has exactly L siblings (degenerate tree); the exact path is the
+	// positive control, any longer or shorter path must fail whatever L is ----
+	run.Declare("C03.deep_path_length_is_binding", 16)
+	{
+		env := newL1Env(1, []time.Duration{period})
+		user := env.Users[1]
+		if r := env.Deposit(env.Users[0], 1, "l2", "uinit", math.NewInt(500_000_000), nil); r.Class != sim.OK {
+			panic(r.ErrString())
+		}
+		for li, L := range []int{1, 2, 7, 31, 32, 33, 63, 64, 65, 100, 128, 255, 256} {
+			w := Withdrawal{1, uint64(1000 + li), "l2deep", user.String(), "uinit", uint64(10 + li)}
+			sibs := make([][]byte, L)
+			for i := range sibs {
+				sibs[i] = rng.Bytes(32)
+			}
+			root := ref.Root(w.Leaf(), sibs)
+			o := &ProposedOutput{BridgeID: 1, Ws: []Withdrawal{w}, Version: 1, StorageRoot: root, BlockHash: rng.Bytes(32)}
+			o.OutputRoot = ref.OutputRoot(o.Version, o.StorageRoot[:], o.BlockHash)
+			if res := env.Propose(o); res.Class != sim.OK {
+				panic(res.ErrString())
+			}
+			env.L1.NextBlock(period + time.Second)
+			mk := func(proof [][]byte) *ophosttypes.MsgFinalizeTokenWithdrawal {
+				cp := make([][]byte, len(proof))
+				for i := range proof {
+					cp[i] = append([]byte(nil), proof[i]...)
+				}
+				return ophosttypes.NewMsgFinalizeTokenWithdrawal(user.String(), 1, o.Index, w.Seq, cp, w.From, w.To, sdk.NewCoin(w.Denom, math.NewIntFromUint64(w.Amount)), []byte{o.Version}, append([]byte(nil), root[:]...), append([]byte(nil), o.BlockHash...))
+			}
+			ctl := env.L1.Branch().Deliver(mk(sibs))
+			run.Evaluations++
+			if !run.Check("C03.control_accepted", ctl.Class == sim.OK, "c03.deep_control_rejected", []string{fmt.Sprintf("path length %d", L)}, "valid claim with a %d-element path rejected: %s", L, ctl.ErrString()) {
+				continue
+			}
+			variants := map[string][][]byte{
+				"extended+1 garbage":   append(append([][]byte{}, sibs...), rng.Bytes(32)),
+				"extended+dup last":    append(append([][]byte{}, sibs...), sibs[L-1]),
+				"extended+5 garbage":   append(append([][]byte{}, sibs...), rng.Bytes(32), rng.Bytes(32), rng.Bytes(32), rng.Bytes(32), rng.Bytes(32)),
+				"truncated last":       sibs[:L-1],
+				"truncated first":      sibs[1:],
+			}
+			for name, pr := range variants {
+				r := env.L1.Branch().Deliver(mk(pr))
+				run.Evaluations++
+				run.Check("C03.deep_path_length_is_binding", r.Class != sim.OK, "c03.path_length_not_binding", []string{fmt.Sprintf("committed path length %d, submitted %s (%d elements)", L, name, len(pr))}, "claim with a %s path accepted for a commitment of path length %d", name, L)
+				run.Distinct(fmt.Sprintf("C03/deep/%d/%s", L, name))
+			}
 		}
 	}
 	for k, v := range kinds {
